@@ -91,7 +91,8 @@ def recoverable(t):
     """Generation order is recoverable from the sorted output, abs() and the
     redraw loop are irrelevant, the non-emptiness guard is irrelevant."""
     s = math.sqrt(t.gap_std[1] ** 2 + t.dur_std[1] ** 2)
-    return (t.gap_mean[0] + t.dur_mean[0] >= 8 * s and t.gap_mean[0] + t.dur_mean[0] > 0
+    # start(i+1) > start(i) needs gap > -duration: 6 joint deviations keep a mis-ordering below ~1e-9 per unit
+    return (t.gap_mean[0] + t.dur_mean[0] >= 6 * s and t.gap_mean[0] + t.dur_mean[0] > 0
             and t.dur_mean[0] >= 6 * t.dur_std[1] and t.dur_mean[0] > 1e-3
             and t.n_mean[0] >= 3 * t.n_std[1] + 1)
 
